@@ -135,3 +135,8 @@ def u_evalfn(ctx):
         ctx.record("evalfn: %s == %s_wt * %s_trans(x, latent, **%s_trans_kwargs)" % (nm, nm, nm, nm),
                    len(tr) == 1 and tr[0][1] is x and tr[0][2] == "LATENT" and tr[0][3] == kw and isinstance(out, tuple) and out[0] == "mul"
                    and out[1] is wt and isinstance(out[2], V) and out[2].n == nm + "_trans-out", detail=str((tr, out)))
+
+
+# the usefulness-criterion data of factory-built problems: the same unit as C12's (registered for this property too)
+from contracts import C12 as _c12
+unit(P, _c12.UC_UNIT["name"], _c12.UC_UNIT["mode"], bounded=True, targets=_c12.UC_UNIT["targets"], note=_c12.UC_UNIT["note"])(_c12.u_b_uc)
